@@ -46,11 +46,11 @@ theorem zerofpr_iterations_le_max_iter (P : Problem α) (dir : Direction D α) (
     (pr : Params α) (stop : Nat → Bool) (oot : Bool) (x0 y Sig errz0 gV : Vec α) (gS : α) :
     (run P dir d0 pr stop oot x0 y Sig errz0 gV gS).stats.iterations ≤ pr.maxIter := by
   unfold run
-  cases hi : initState P d0 pr x0 gV gS with
+  cases hi : initState P d0 pr stop x0 gV gS with
   | inl t => simp [stats0]
   | inr s =>
     simp only []
-    have hk0 : s.k ≤ pr.maxIter := by rw [(initState_good P d0 pr x0 gV gS s hi).2.1]; omega
+    have hk0 : s.k ≤ pr.maxIter := by rw [(initState_good P d0 pr stop x0 gV gS s hi).2.1]; omega
     rcases mainLoop_cases P dir pr stop oot x0 y Sig errz0 (fun s => s.k ≤ pr.maxIter)
       (fun s hs hb => k_le_step P dir pr stop oot s hs hb) (pr.maxIter + 2) s hk0
       with ⟨s', hI, _, he⟩ | ⟨s', hI, he⟩
@@ -71,7 +71,7 @@ theorem zerofpr_iterations_le_max_iter (P : Problem α) (dir : Direction D α) (
       `k` the reported iteration count — and it is not `Busy`. -/
 theorem zerofpr_status_eps_at_last_head (P : Problem α) (dir : Direction D α) (d0 : D)
     (pr : Params α) (stop : Nat → Bool) (oot : Bool) (x0 y Sig errz0 gV : Vec α) (gS : α)
-    (s0 : St α D) (hinit : initState P d0 pr x0 gV gS = .inr s0)
+    (s0 : St α D) (hinit : initState P d0 pr stop x0 gV gS = .inr s0)
     (hfuel : (run P dir d0 pr stop oot x0 y Sig errz0 gV gS).fuelOut = false) :
     ∃ c np t,
       (run P dir d0 pr stop oot x0 y Sig errz0 gV gS).final = some c ∧
@@ -104,7 +104,7 @@ theorem zerofpr_status_eps_at_last_head (P : Problem α) (dir : Direction D α) 
     evaluated with. -/
 theorem zerofpr_final_callback (P : Problem α) (dir : Direction D α) (d0 : D)
     (pr : Params α) (stop : Nat → Bool) (oot : Bool) (x0 y Sig errz0 gV : Vec α) (gS : α)
-    (s0 : St α D) (hinit : initState P d0 pr x0 gV gS = .inr s0)
+    (s0 : St α D) (hinit : initState P d0 pr stop x0 gV gS = .inr s0)
     (hfuel : (run P dir d0 pr stop oot x0 y Sig errz0 gV gS).fuelOut = false) :
     ∃ cb, (run P dir d0 pr stop oot x0 y Sig errz0 gV gS).callbacks.getLast? = some cb ∧
       (run P dir d0 pr stop oot x0 y Sig errz0 gV gS).final = some cb.it ∧
@@ -130,7 +130,7 @@ theorem zerofpr_final_callback (P : Problem α) (dir : Direction D α) (d0 : D)
     nothing written. -/
 theorem zerofpr_early_not_finite (P : Problem α) (dir : Direction D α) (d0 : D)
     (pr : Params α) (stop : Nat → Bool) (oot : Bool) (x0 y Sig errz0 gV : Vec α) (gS : α)
-    (t : Nat) (hinit : initState P d0 pr x0 gV gS = .inl t) :
+    (t : Nat) (hinit : initState P d0 pr stop x0 gV gS = .inl t) :
     (run P dir d0 pr stop oot x0 y Sig errz0 gV gS).stats.status = .NotFinite ∧
     (run P dir d0 pr stop oot x0 y Sig errz0 gV gS).stats.iterations = 0 ∧
     (run P dir d0 pr stop oot x0 y Sig errz0 gV gS).callbacks = [] ∧
@@ -139,8 +139,9 @@ theorem zerofpr_early_not_finite (P : Problem α) (dir : Direction D α) (d0 : D
   refine ⟨?_, ?_, ?_, ?_⟩ <;> first | rfl | trivial
 
 /-- …which happens exactly when the initial Lipschitz estimate is not finite. -/
-theorem zerofpr_early_iff (P : Problem α) (d0 : D) (pr : Params α) (x0 gV : Vec α) (gS : α) :
-    (∃ t, initState P d0 pr x0 gV gS = .inl t) ↔
+theorem zerofpr_early_iff (P : Problem α) (d0 : D) (pr : Params α) (stop : Nat → Bool)
+    (x0 gV : Vec α) (gS : α) :
+    (∃ t, initState P d0 pr stop x0 gV gS = .inl t) ↔
       RealLike.isFinite (initLipschitz P pr x0 gV gS).1.L = false := by
   unfold initState
   simp only []
@@ -149,7 +150,7 @@ theorem zerofpr_early_iff (P : Problem α) (d0 : D) (pr : Params α) (x0 gV : Ve
 /-- Consequences through the generated chain: what each returned status certifies. -/
 theorem zerofpr_status_meaning (P : Problem α) (dir : Direction D α) (d0 : D)
     (pr : Params α) (stop : Nat → Bool) (oot : Bool) (x0 y Sig errz0 gV : Vec α) (gS : α)
-    (s0 : St α D) (hinit : initState P d0 pr x0 gV gS = .inr s0)
+    (s0 : St α D) (hinit : initState P d0 pr stop x0 gV gS = .inr s0)
     (hfuel : (run P dir d0 pr stop oot x0 y Sig errz0 gV gS).fuelOut = false) :
     ((run P dir d0 pr stop oot x0 y Sig errz0 gV gS).stats.status = .Converged ↔
       (run P dir d0 pr stop oot x0 y Sig errz0 gV gS).stats.eps
